@@ -247,6 +247,13 @@ func c18Scenarios(tier string) []c18Scenario {
 				out = append(out, c18Scenario{world: "W0+subscription-roots", sub: c18SubTick, client: c, up: [][]upAction{u, u}, timers: 0, bound: 1, planner: "plain"})
 			}
 		}
+		// a second start whose upstream handshake is still in flight when the client leaves (default schedule plus
+		// forced switches only: the handshake blocks on the upstream, the read loop goes on)
+		for _, c := range [][]cliAction{{"start2"}, {"start2", "close"}, {"start2", "stop1"}} {
+			for _, u := range [][]upAction{{}, {"event"}} {
+				out = append(out, c18Scenario{world: "W0+subscription-roots", sub: c18SubTick, client: c, up: [][]upAction{u, u}, timers: 0, bound: 0, planner: "plain"})
+			}
+		}
 		// a heartbeat firing *and* one preemption (two deviations) while an event is in flight
 		for _, c := range [][]cliAction{{"stop-unknown"}, {"terminate"}} {
 			out = append(out, c18Scenario{world: "W0+subscription-roots", sub: c18SubTick, client: c, up: [][]upAction{{"event"}, {"event"}}, timers: 1, bound: 2, planner: "plain"})
@@ -289,7 +296,7 @@ func init() {
 		Assumptions: []string{"time is virtual: only orderings of ticker firings are explored", "schedules beyond the preemption bound are not covered", "gobwas/ws, encoding/json are not instrumented (no goroutines on the paths used)"},
 		Budget: func(tier string) time.Duration {
 			if tier == "quick" {
-				return 75 * time.Second
+				return 120 * time.Second
 			}
 			return 14 * time.Minute
 		},
